@@ -1047,15 +1047,22 @@ Proof.
   - destruct (IH _ _ _ _ _ _ H) as (A & B & C & D). auto.
 Qed.
 
-Lemma kw_wait_law : forall w tg s w', kw_wait w tg = Ok (s, w') ->
+Lemma kwait_law_w : forall fuel (w : kworld) tg s (w' : kworld), kwait fuel (fst w) (snd w) tg = Ok (s, w') ->
   (forall x, krun w' x -> krun w x) /\ ~ krun w' (ws_tid s)
   /\ (forall y, tg = Some y -> ws_tid s = y) /\ (forall p, s = WEvent p EvExit -> kexit w' p).
 Proof.
-  intros [k sch] tg s [k' sch'] H.
-  change (kwait KFUEL k sch tg = Ok (s, (k', sch'))) in H. revert H. generalize KFUEL. intros fuel H.
+  intros fuel [k sch] tg s [k' sch'] H. cbn [fst snd] in H.
   destruct (kwait_law _ _ _ _ _ _ _ H) as (A & B & C & D).
   unfold krun, kexit; cbn [fst]. split; [exact A|]. split; [congruence|]. split; auto.
 Qed.
+
+(* conversion must unfold kw_wait, never run kwait on its 2000 units of fuel *)
+Strategy 100 [kwait].
+
+Lemma kw_wait_law : forall w tg s w', kw_wait w tg = Ok (s, w') ->
+  (forall x, krun w' x -> krun w x) /\ ~ krun w' (ws_tid s)
+  /\ (forall y, tg = Some y -> ws_tid s = y) /\ (forall p, s = WEvent p EvExit -> kexit w' p).
+Proof. intros w tg s w' H. unfold kw_wait in H. exact (kwait_law_w _ _ _ _ _ H). Qed.
 
 Lemma kresume_law : forall k x0 d tf ok k', kresume k x0 d tf = (ok, k') ->
   forall x, krunning k' x = true -> krunning k x = true \/ (ok = true /\ x0 = x /\ ~ kexit (k, @nil choice) x).
@@ -1158,3 +1165,104 @@ Proof.
         destruct (resume_run kworld kw_wait kw_req kw_pc f bps t0 k n') as [[[? ?] ?]| | |]; cbn [bind] in E2; discriminate.
       * apply (A2 sr); auto.
 Qed.
+
+(* ===================================================================================== *)
+(* E. C10: what the continue phase of Tracer::resume hands to the debuggee                 *)
+(* ===================================================================================== *)
+(* thread x stands in a reported signal-delivery-stop (signal stop or SIGTRAP trap stop) *)
+Definition sigstop_ready (k : kernel) (x : N) : bool :=
+  match kget k x with
+  | Some th => kst_stopped_reported th && match k_st th with KSig _ | KTrap _ => true | _ => false end
+  | None => false end.
+
+Lemma tget_notin : forall l x, ~ In x (map fst l) -> tget l x = None.
+Proof. intros l x H. destruct (tget l x) eqn:E; auto. exfalso. apply H. eapply tget_in; eauto. Qed.
+
+Lemma kresume_deliv : forall k y d tf ok k', kresume k y d tf = (ok, k') ->
+  k_deliv k' = k_deliv k ++ (if sigstop_ready k y && negb (d =? 0) then [(y, d)] else [])
+  /\ forall x, x <> y -> kget k' x = kget k x.
+Proof.
+  intros k y d tf ok k' H. unfold kresume in H. unfold sigstop_ready.
+  destruct (kget k y) as [th|] eqn:E.
+  - destruct (kst_stopped_reported th) eqn:Er.
+    + inv H. cbn [k_deliv andb]. split.
+      * destruct (k_st th); cbn [andb]; try (rewrite app_nil_r; reflexivity);
+        destruct (negb (d =? 0)); try rewrite app_nil_r; reflexivity.
+      * intros x Hx.
+        match goal with |- kget (mkKer (k_threads (kset k y ?v)) _ _ _ _ _ _) x = _ => change (kget (kset k y v) x = kget k x) end.
+        rewrite kget_kset. destruct (y =? x) eqn:Eyx; auto. apply N.eqb_eq in Eyx. congruence.
+    + inv H. cbn [andb]. rewrite app_nil_r. auto.
+  - inv H. rewrite app_nil_r. auto.
+Qed.
+
+Lemma cont_deliv : forall l k sch x sg ex l' w', NoDup (map fst l) ->
+  cont_list kworld kw_req l (k, sch) (Some (x, sg)) ex = (l', w') ->
+  k_deliv (fst w') = k_deliv k ++
+    (if is_stopped (tget l x) && negb (mem x ex) && sigstop_ready k x && negb (sg =? 0) then [(x, sg)] else []).
+Proof.
+  induction l as [|[y st] r IH]; intros k sch x sg ex l' w' ND H; cbn [ModelTracer.cont_list] in H.
+  - inv H. cbn. rewrite app_nil_r. reflexivity.
+  - cbn [map fst] in ND. inversion ND as [|? ? Hnin ND']; subst.
+    assert (SKIP : forall r' w'', cont_list kworld kw_req r (k, sch) (Some (x, sg)) ex = (r', w'') ->
+              (x = y -> is_stopped (Some st) && negb (mem x ex) = false) ->
+              k_deliv (fst w'') = k_deliv k ++
+                (if is_stopped (tget ((y, st) :: r) x) && negb (mem x ex) && sigstop_ready k x && negb (sg =? 0) then [(x, sg)] else [])).
+    { intros r' w'' Hc Hxy. rewrite (IH _ _ _ _ _ _ _ ND' Hc). cbn [tget alist_get].
+      destruct (x =? y) eqn:E; [|reflexivity]. apply N.eqb_eq in E. subst y.
+      rewrite (Hxy eq_refl). fold (tget r x). rewrite (tget_notin _ _ Hnin). reflexivity. }
+    destruct (mem y ex) eqn:Em.
+    + destruct (cont_list kworld kw_req r (k, sch) (Some (x, sg)) ex) as [r' w''] eqn:Hc. inv H.
+      apply (SKIP _ _ Hc). intros ->. rewrite Em. apply andb_false_r.
+    + destruct st as [sty|].
+      * unfold kw_req at 1 in H. cbn [fst snd kreq] in H.
+        destruct (kresume k y (if x =? y then sg else 0) false) as [ok k1] eqn:Er.
+        destruct (cont_list kworld kw_req r (k1, sch) (Some (x, sg)) ex) as [r' w''] eqn:Hc. inv H.
+        destruct (kresume_deliv _ _ _ _ _ _ Er) as (D1 & F1).
+        rewrite (IH _ _ _ _ _ _ _ ND' Hc), D1. cbn [tget alist_get].
+        destruct (x =? y) eqn:E.
+        -- apply N.eqb_eq in E. subst y. fold (tget r x). rewrite (tget_notin _ _ Hnin). cbn [is_stopped andb].
+           rewrite Em. cbn [negb andb]. rewrite app_nil_r. reflexivity.
+        -- cbn [N.eqb]. replace (negb (0 =? 0)) with false by reflexivity. rewrite andb_false_r, app_nil_r.
+           assert (S1 : sigstop_ready k1 x = sigstop_ready k x).
+           { unfold sigstop_ready. rewrite F1; auto. apply N.eqb_neq in E. exact E. }
+           rewrite S1. reflexivity.
+      * destruct (cont_list kworld kw_req r (k, sch) (Some (x, sg)) ex) as [r' w''] eqn:Hc. inv H.
+        apply (SKIP _ _ Hc). intros _. reflexivity.
+Qed.
+
+(* C10, one queue entry: when Tracer::resume pops (x, sg), its continue phase hands exactly that
+   signal to thread x, once, and nothing to any other thread - PROVIDED x is not queued again
+   behind it, the tracer holds x stopped and x stands in a signal-delivery-stop.  Otherwise the
+   popped signal is dropped (see C10_quiet_burst_refuted, C10_signal_lost_refuted). *)
+Definition inject_ok (t : tracer) (k : kernel) : bool :=
+  match t_queue t with
+  | (x, sg) :: rest => is_stopped (st_of t x) && negb (mem x (map fst rest)) && sigstop_ready k x && negb (sg =? 0)
+  | [] => false end.
+
+Theorem inject_front_partial : forall t k sch x sg rest t1 w1, keys_ok t -> t_queue t = (x, sg) :: rest ->
+  inject_ok t k = true ->
+  cont_stopped_ex kworld kw_req (with_queue t rest) (k, sch) (Some (x, sg)) (map fst rest) = (t1, w1) ->
+  k_deliv (fst w1) = k_deliv k ++ [(x, sg)] /\ t_queue t1 = rest.
+Proof.
+  intros t k sch x sg rest t1 w1 K Q Hok H. unfold ModelTracer.cont_stopped_ex in H.
+  destruct (cont_list kworld kw_req (t_threads (with_queue t rest)) (k, sch) (Some (x, sg)) (map fst rest)) as [l' w'] eqn:Hc.
+  inv H. split; [|reflexivity].
+  rewrite (cont_deliv _ _ _ _ _ _ _ _ K Hc). unfold inject_ok in Hok. rewrite Q in Hok.
+  unfold st_of in Hok. cbn [t_threads with_queue]. rewrite Hok. reflexivity.
+Qed.
+
+(* and in every case nothing but the popped entry can be delivered, at most once *)
+Theorem inject_nothing_else : forall t k sch x sg rest t1 w1, keys_ok t ->
+  cont_stopped_ex kworld kw_req (with_queue t rest) (k, sch) (Some (x, sg)) (map fst rest) = (t1, w1) ->
+  k_deliv (fst w1) = k_deliv k \/ k_deliv (fst w1) = k_deliv k ++ [(x, sg)].
+Proof.
+  intros t k sch x sg rest t1 w1 K H. unfold ModelTracer.cont_stopped_ex in H.
+  destruct (cont_list kworld kw_req (t_threads (with_queue t rest)) (k, sch) (Some (x, sg)) (map fst rest)) as [l' w'] eqn:Hc.
+  inv H. rewrite (cont_deliv _ _ _ _ _ _ _ _ K Hc).
+  match goal with |- context [if ?c then _ else _] => destruct c end; [right | left; rewrite app_nil_r]; reflexivity.
+Qed.
+
+Example inject_ok_nontrivial :
+  inject_ok (mkT 1 [(1, TStopped (StSignal 10)); (2, TStopped (StSignal 12))] [(1, 10); (2, 12)] false)
+            (mkKer [(1, mkK (KSig 10) true false [] 5 false); (2, mkK (KSig 12) true true [] 7 false)] [] [] [] [] [] []) = true.
+Proof. reflexivity. Qed.
